@@ -585,11 +585,28 @@ class FitResult:
         self.scale_trace: List[Tuple[float, float]] = []
         self.scale_problems: List[str] = []
         self.mutated: List[str] = []
+        self.upstream_mutated = False
         self.out_u = None
         self.out_r = None
         self.u_exc: Optional[BaseException] = None
         self.ref_exc: Optional[BaseException] = None
         self.inputs_u: Dict[str, Any] = {}
+
+
+def relayout(t: torch.Tensor, layout: str) -> torch.Tensor:
+    """Same values, same shape, other strides (what slicing / transposing hands to a function)."""
+    if layout == "contiguous" or t.dim() == 0:
+        return t
+    if t.dim() >= 2:
+        r = t.transpose(-1, -2).contiguous().transpose(-1, -2)  # column-major in the last two dims
+        if r.is_contiguous():  # a size-1 dim: fall through to the strided form
+            buf = torch.zeros(t.shape[:-1] + (2 * t.shape[-1],), dtype=t.dtype)
+            buf[..., ::2] = t
+            r = buf[..., ::2]
+        return r
+    buf = torch.zeros(2 * t.shape[0], dtype=t.dtype)
+    buf[::2] = t
+    return buf[::2]
 
 
 def run_fit(op: Op, U, cfg: Dict[str, Any], constraint: Any, dtype: torch.dtype, data_seed: int, up_seed: int,
@@ -602,11 +619,14 @@ def run_fit(op: Op, U, cfg: Dict[str, Any], constraint: Any, dtype: torch.dtype,
     base = op.build(cfg, gen, dtype)
     fr = FitResult()
 
+    layout, frozen = cfg.get("_layout", "contiguous"), cfg.get("_frozen")
+
     def leafify(d):
         out = {}
         for k, v in d.items():
-            if isinstance(v, torch.Tensor) and v.is_floating_point() and k in op.diff:
-                out[k] = v.detach().clone().requires_grad_(True)
+            if isinstance(v, torch.Tensor) and v.is_floating_point():
+                t = relayout(v.detach().clone(), layout) if layout in ("noncontig", "all-noncontig") else v.detach().clone()
+                out[k] = t.requires_grad_(True) if (k in op.diff and k != frozen) else t
             elif isinstance(v, torch.Tensor):
                 out[k] = v.detach().clone()
             else:
@@ -641,12 +661,18 @@ def run_fit(op: Op, U, cfg: Dict[str, Any], constraint: Any, dtype: torch.dtype,
             fr.s_out, fr.res_out, _ = fit_scalar(yu, yr)
         if want_grads and fr.shape_ok and not fr.ref_nonfinite and yu.requires_grad:
             g = torch.randn(yu.shape, generator=torch.Generator().manual_seed(up_seed), dtype=torch.float64).to(yu.dtype)
-            # keep upstream entries away from 0 so that every path is exercised
+            if layout == "up-expanded" and g.dim() >= 1:
+                # what `y.sum(-1)...backward()` hands to the op: one value per row, expanded with stride 0
+                g = g[..., :1].expand(g.shape)
+            elif layout in ("up-noncontig", "all-noncontig"):
+                g = relayout(g, "noncontig")
+            g_before = g.clone()
             yu.backward(g)
+            fr.upstream_mutated = not bool(torch.equal(torch.nan_to_num(g), torch.nan_to_num(g_before)))
             torch.manual_seed(rng_seed)
             yg = op.call_ref(ar_g, cfg, grad_ref=True)
             if yg.requires_grad:
-                yg.backward(g.to(yg.dtype))
+                yg.backward(g_before.to(yg.dtype))
             for k in op.diff:
                 tu, tr = au.get(k), ar_g.get(k)
                 if not isinstance(tu, torch.Tensor) or not tu.is_floating_point():
